@@ -13,12 +13,29 @@ RAW_POOL = [("R", b"[a-z]+[0-9]+"), ("S", b"\\d+[a-z]?"), ("T", b"[0-9]+"), ("U"
 RAW_MEMS = [b"ab1 c22 abc9 zz", b"a1b2c3 xyz 9", b"x1z xy 007 ab", b"abcabc123123 zz9z"]
 
 
+# text strings with the `nocase` modifier (names start with N or M); inputs in another case than written
+NOCASE_POOL = [("N", b"Ab"), ("M", b"xYz"), ("N", b"a")]
+MIXED_MEMS = [b"ABcabCAB a", b"XYZ xyz xYz ab AB", b"aB", b"Zz AB xyZ A", b"abAB\x00\x01Ab"]
+
+
 def is_raw(name):
-    return name[1].isupper()
+    return name[1] in "RSTU"
+
+
+def is_nocase(name):
+    return name[1] in "NM"
+
+
+def occurrences(name, p, mem):
+    """Offsets at which the plain text string (name, p) occurs in mem."""
+    p = bytes(p)
+    if is_nocase(name):
+        return cond.find_all(mem.lower(), p.lower())
+    return cond.find_all(mem, p)
 
 
 def gen_ruleset(rng, max_rules=6, max_ns=3, depth=2, allow_for=True, cond_kinds=None, global_refs_ordinary=False,
-                poison=0, raw_regex=0):
+                poison=0, raw_regex=0, nocase=0):
     """Returns a JSON-serialisable rule set: {"rules": [...]} in declaration order."""
     nns = rng.range(1, max_ns)
     nrules = rng.range(1, max_rules)
@@ -47,7 +64,8 @@ def gen_ruleset(rng, max_rules=6, max_ns=3, depth=2, allow_for=True, cond_kinds=
             continue
         idx[0] += 1
         nstr = rng.range(0, 3)
-        strs = [rng.choice(RAW_POOL) if (raw_regex and rng.below(100) < raw_regex) else rng.choice(POOL)
+        strs = [rng.choice(RAW_POOL) if (raw_regex and rng.below(100) < raw_regex)
+                else rng.choice(NOCASE_POOL) if (nocase and rng.below(100) < nocase) else rng.choice(POOL)
                 for _ in range(nstr)]
         # unique names inside a rule
         strings = []
@@ -221,7 +239,8 @@ def rule_text(r, printer_cls=cond.Printer):
     mods = ("global " if r["global"] else "") + ("private " if r["private"] else "")
     txt = "%srule %s {\n" % (mods, r["name"])
     if r["strings"]:
-        txt += "  strings:\n" + "".join("    $%s = %s\n" % (n, ("/%s/" % bytes(p).decode()) if is_raw(n) else cond.ybytes(bytes(p)))
+        txt += "  strings:\n" + "".join("    $%s = %s\n" % (n, ("/%s/" % bytes(p).decode()) if is_raw(n)
+                                                      else cond.ybytes(bytes(p)) + (" nocase" if is_nocase(n) else ""))
                                        for n, p in r["strings"])
     txt += "  condition:\n    %s\n}\n" % pr.y(tup(r["cond"]))
     return txt
@@ -266,6 +285,7 @@ def simulate_strings(rs, regions, limit=1000):
     first), literal confirmation, insertion and truncation."""
     import re as _re
     variables = []          # (literal, string id)
+    nocase = set()          # variable indexes of nocase strings
     raw = {}                # variable index -> compiled regex (strings without literal)
     for r in ordered_rules(rs):
         for k, (n, p) in enumerate(r["strings"]):
@@ -273,6 +293,8 @@ def simulate_strings(rs, regions, limit=1000):
                 raw[len(variables)] = _re.compile(bytes(p), _re.S)
             else:
                 assert len(p) <= 4
+                if is_nocase(n):
+                    nocase.add(len(variables))
             variables.append((bytes(p), r["id"] * 100 + k))
     atoms = {}              # lowered atom -> [variable index]
     for vi, (lit, _) in enumerate(variables):
@@ -292,7 +314,7 @@ def simulate_strings(rs, regions, limit=1000):
             evs = []
             for vi in atoms[a]:
                 lit, sid = variables[vi]
-                if mem[o:o + len(lit)] != lit:
+                if (mem[o:o + len(lit)].lower() != lit.lower()) if vi in nocase else (mem[o:o + len(lit)] != lit):
                     continue
                 m = (base, o, len(lit))
                 if m not in matches[vi]:
